@@ -308,6 +308,14 @@ func TestCheck(t *testing.T) {
 			cases = append(cases, faults.Case{Kind: "h2-flood", Proto: "h2", K: k, Val: n})
 		}
 	}
+	// the ClientHello split over two records at every offset (quick: every offset up to 160, then every 8th)
+	for _, proto := range []string{"h1", "h2"} {
+		for k := 1; k < 700; k++ {
+			if ev.Thorough() || k <= 160 || k%8 == 0 {
+				cases = append(cases, faults.Case{Kind: "hello-fragmented", Proto: proto, K: k})
+			}
+		}
+	}
 	for _, k := range []int{0, 1, 10, 23, 24, 30} {
 		cases = append(cases, faults.Case{Kind: "stall-after-handshake", Proto: "h2", K: k}, faults.Case{Kind: "stall-after-handshake", Proto: "h1", K: k})
 	}
@@ -357,10 +365,14 @@ func TestCheck(t *testing.T) {
 		if cs.Kind == "slow-backend" {
 			opts = binaryOpts()
 		}
+		faults.Bystander = true
 		res := faults.Run(t, cs, opts, helloH2, func(env *faults.Env) {
 			rep.Add("evaluations", 1)
 			rep.Note("distinct_nontrivial", fmt.Sprintf("%s/%s/ops=%d/bytes=%d", cs.Kind, cs.Proto, env.Ops, env.Bytes))
 			rep.Sample(map[string]any{"case": cs.String(), "server_io_ops_on_victim_conn": env.Ops, "victim_bytes_on_wire": env.Bytes})
+			if env.Problem != "" {
+				rep.Violate(map[string]any{"kind": "bystander-harmed", "case_kind": cs.Kind, "proto": cs.Proto}, map[string]any{"case": cs}, "case %s: %s", cs, env.Problem)
+			}
 			if msg := control(env.St, "x"); msg != "" {
 				rep.Violate(map[string]any{"kind": "proxy-broken-after-case", "case_kind": cs.Kind, "proto": cs.Proto}, map[string]any{"case": cs},
 					"after case %s: %s", cs, msg)
